@@ -1576,6 +1576,11 @@ def memo_update(know, lab):
 def fold_call(callee, args):
     """evaluate a few pure std calls on values built on this path"""
     if not args:
+        # `#[derive(Default)]` on a small verdict struct: the defaults of bool and Option are literals
+        if callee == '<bool as std::default::Default>::default':
+            return ('const', 'false')
+        if callee.startswith('<std::option::Option<') and callee.endswith(' as std::default::Default>::default'):
+            return NONE_TERM
         return None
     a = args[0]
     if a[0] == 'agg' and a[1].endswith('option::Option') and a[2] == 'None':
